@@ -23,7 +23,8 @@ META = {
     "assumptions": ["CPython finalises an abandoned generator promptly (the plain-interpreter replay is the arbiter)"],
 }
 ID = {3: "id", 4: "id", 6: "$id", 7: "$id"}
-KEYS = ["u", "v", "w", "z", "r", "h"]
+KEYS = ["u", "v", "w", "z", "r", "h", "f"]
+FVALS = [2.0, 2.5, 3, "s", True, 7.5, 7.0]
 N_OPS = 6
 
 
@@ -45,6 +46,7 @@ def schema_for(d):
             "r": {"$ref": "#/definitions/rec"},               # recursive
             "h": {"$ref": "http://h.test/doc.json#/definitions/m"},   # handler-served, fault schedule
             "z": {"maximum": 3, "minimum": 1},
+            "f": {"type": ["integer", "string"]},              # floats from a concrete catalogue: 2.0 is an integer in drafts 6/7, 2.5 is not
         },
     }
     s.update(neg)
@@ -74,6 +76,9 @@ def step(d, n_ops):
                 return False
         for k in ks:
             if not (0 <= k <= 2):
+                return False
+        for i in range(len(keys)):
+            if keys[i] == KEYS.index("f") and not (0 <= vals[i] < len(FVALS)):
                 return False
         return True
 
@@ -106,6 +111,8 @@ def step(d, n_ops):
             val = vals[i]
             if key == "u":
                 return {"u": {"p": val}}
+            if key == "f":
+                return {"f": pick(FVALS, val)}
             if key == "r":
                 return {"r": [[val], val]}
             return {key: val}
